@@ -18,8 +18,8 @@
 EXTENDS EGImage, SequencesExt
 
 FbBox(fb) == <<0, 0, fb.w, fb.h>>
-BufSize(fb) == ExpectedLen(fb.w, fb.h, fb.bpp)             \* buffer_size_bpp (framebuffer.rs:30)
-\* as_image (framebuffer.rs:111): an ImageRaw of the same format over data[0..BUFFER_SIZE]
+BufSize(fb) == ExpectedLen(fb.w, fb.h, fb.bpp)             \* buffer_size_bpp (framebuffer.rs:32)
+\* as_image (framebuffer.rs:119): an ImageRaw of the same format over data[0..BUFFER_SIZE]
 AsImage(fb, bytes) == [bpp |-> fb.bpp, ord |-> fb.ord, w |-> fb.w, h |-> fb.h, data |-> SubSeq(bytes, 1, BufSize(fb))]
 
 ---------------------------------------------------------------------------
@@ -56,24 +56,24 @@ WritesInside(fb, op) ==
 SetByte(bytes, k, b) == [bytes EXCEPT ![k + 1] = b]      \* self.data[k] = b (k 0-based, in range)
 \* value as bytes[0..n), least significant first (to_le_bytes); v may be an i32 standing for a u32
 LeByte(v, j) == (v \div (2 ^ (8 * j))) % 256
-\* impl_bit! set_pixel (framebuffer.rs:146-170)
+\* impl_bit! set_pixel (framebuffer.rs:152-167)
 SetPixelBits(fb, bytes, p, v, writer) ==
   LET x == p[1]  y == p[2] IN
-  IF x >= 0 /\ y >= 0 /\ x < fb.w /\ y < fb.h                                  \* :152-153
-  THEN LET ppb == 8 \div fb.bpp                                                 \* :154
-           bytesPerRow == (fb.w * fb.bpp + 7) \div 8                            \* :155-156
-           byteIndex == bytesPerRow * y + (x \div ppb)                          \* :157
+  IF x >= 0 /\ y >= 0 /\ x < fb.w /\ y < fb.h                                  \* :153-154
+  THEN LET ppb == 8 \div fb.bpp                                                 \* :155
+           bytesPerRow == (fb.w * fb.bpp + 7) \div 8                            \* :156-157
+           byteIndex == bytesPerRow * y + (x \div ppb)                          \* :159
            bitIndex == IF writer = "patched" /\ fb.ord = 1
                        THEN (x % ppb) * fb.bpp                                  \* D3.diff
-                       ELSE 8 - ((x % ppb) + 1) * fb.bpp                        \* :158
+                       ELSE 8 - ((x % ppb) + 1) * fb.bpp                        \* :159
            old == bytes[byteIndex + 1]
            field == (old \div (2 ^ bitIndex)) % (2 ^ fb.bpp)
-       IN SetByte(bytes, byteIndex, old - field * (2 ^ bitIndex) + v * (2 ^ bitIndex))   \* :160-163
+       IN SetByte(bytes, byteIndex, old - field * (2 ^ bitIndex) + v * (2 ^ bitIndex))   \* :161-164
   ELSE bytes
-\* RawU8 set_pixel (framebuffer.rs:198-214)
+\* RawU8 set_pixel (framebuffer.rs:204-213)
 SetPixelU8(fb, bytes, p, v) ==
   IF p[1] >= 0 /\ p[2] >= 0 /\ p[1] < fb.w /\ p[2] < fb.h THEN SetByte(bytes, p[2] * fb.w + p[1], v) ELSE bytes
-\* impl_bytes! set_pixel (framebuffer.rs:236-262): to_le_bytes / to_be_bytes by data order
+\* impl_bytes! set_pixel (framebuffer.rs:246-261): to_le_bytes / to_be_bytes by data order
 SetPixelBytes(fb, bytes, p, v) ==
   IF p[1] >= 0 /\ p[2] >= 0 /\ p[1] < fb.w /\ p[2] < fb.h
   THEN LET n == fb.bpp \div 8
@@ -87,10 +87,10 @@ SetPixelT(fb, bytes, p, v, writer) ==
   IF fb.bpp < 8 THEN SetPixelBits(fb, bytes, p, v, writer)
   ELSE IF fb.bpp = 8 THEN SetPixelU8(fb, bytes, p, v)
   ELSE SetPixelBytes(fb, bytes, p, v)
-\* DrawTarget::draw_iter (framebuffer.rs:181, 226, 274): set_pixel for every item
+\* DrawTarget::draw_iter (framebuffer.rs:178, 224, 271): set_pixel for every item
 DrawIterT(fb, bytes, px, writer) ==
   FoldLeft(LAMBDA acc, e : SetPixelT(fb, acc, <<e[1], e[2]>>, e[3], writer), bytes, px)
-(* TRANSCRIBED: trait defaults, core/src/draw_target/mod.rs *)
+(* TRANSCRIBED: trait defaults, core/src/draw_target/mod.rs:388, 407, 422 *)
 \* fill_contiguous: draw_iter(area.points().zip(colors))
 FillContiguousT(fb, bytes, area, cs, writer) ==
   LET pts == RowMajor(area)  k == Min(Len(pts), Len(cs)) IN
@@ -98,7 +98,7 @@ FillContiguousT(fb, bytes, area, cs, writer) ==
 \* fill_solid: fill_contiguous(area, repeat(color))
 FillSolidT(fb, bytes, area, v, writer) ==
   LET pts == RowMajor(area) IN DrawIterT(fb, bytes, [i \in 1..Len(pts) |-> <<pts[i][1], pts[i][2], v>>], writer)
-\* clear: fill_solid(bounding_box(), color); bounding_box = OriginDimensions (framebuffer.rs:289)
+\* clear: fill_solid(bounding_box(), color); bounding_box = OriginDimensions (framebuffer.rs:297)
 ClearT(fb, bytes, v, writer) == FillSolidT(fb, bytes, FbBox(fb), v, writer)
 ApplyT(fb, bytes, op, writer) ==
   CASE op.k = "sp"    -> SetPixelT(fb, bytes, op.p, op.c, writer)
@@ -106,6 +106,6 @@ ApplyT(fb, bytes, op, writer) ==
     [] op.k = "fs"    -> FillSolidT(fb, bytes, op.area, op.c, writer)
     [] op.k = "fc"    -> FillContiguousT(fb, bytes, op.area, op.px, writer)
     [] op.k = "clear" -> ClearT(fb, bytes, op.c, writer)
-\* GetPixel::pixel (framebuffer.rs:136): as_image().pixel(p)
+\* GetPixel::pixel (framebuffer.rs:137): as_image().pixel(p)
 FbPixelT(fb, bytes, p) == PixelT(AsImage(fb, bytes), p)
 =============================================================================
